@@ -65,6 +65,13 @@ def core(ctx):
                 steps.append({"op": "bb", "child": ch, "name": f"s{i}", "conns": conns, "fresh": fresh})
                 steps.append({"op": "fill", "child": ch, "name": f"s{i}"})
         yield {"parent": parent, "children": [_mux_spec(), _ha_spec()], "steps": steps, "strip": None, "tables": None}
+    # pins whose names contain a dot or end like another pin: ignoring `d` must not touch `bus.d` (F29)
+    dotted = {"name": "p", "nodes": [["a", "input", [], False], ["b", "input", [], False], ["o", "buf", [], True], ["o2", "buf", [], True],
+                                      ["g", "nand", ["a", "b"], True]],
+              "bbtypes": [["cell", ["bus.d", "d", "sd"], ["q", "bus.q"]]],
+              "insts": [["u0", 0, {"bus.d": "a", "d": "b", "sd": "g", "q": "o", "bus.q": "o2"}], ["u1", 0, {"bus.d": "g", "d": "a", "sd": "b"}]]}
+    for ign in (None, "d", ["d"], "bus.d", ["bus.d", "q"], "q", ["bus.q"], ["sd", "d"]):
+        yield {"parent": dotted, "children": [_mux_spec()], "steps": [], "strip": {"ignore": ign, "mark": 9}, "tables": None}
 
 
 @st.composite
@@ -337,8 +344,10 @@ def check(case, ctx):
             labels.add("pin_marked_output")
         snap = refsim.snapshot(P)
         out = lib(cg.tx.strip_blackboxes, P, ign) if ign is not None else lib(cg.tx.strip_blackboxes, P)
+        # the pin name of a pin node comes from the registry (pin names may contain dots: u0.bus.d is pin bus.d of u0)
+        pin_of = {f"{i_}.{p_}": p_ for i_, bb_ in P.blackboxes.items() for p_ in (set(bb_.inputs()) | set(bb_.outputs()))}
         clash = sorted(n.replace(".", "_") for n in P.graph.nodes
-                       if P.graph.nodes[n]["type"] in ("bb_input", "bb_output") and n.split(".")[-1] not in ign_l
+                       if P.graph.nodes[n]["type"] in ("bb_input", "bb_output") and pin_of.get(n, n.split(".")[-1]) not in ign_l
                        and n.replace(".", "_") in P.graph.nodes)
         if clash:
             # renaming would merge a pin with an existing net: the documented behaviour is to refuse
@@ -358,7 +367,7 @@ def check(case, ctx):
         for n in g.nodes:
             t = g.nodes[n]["type"]
             if t in ("bb_input", "bb_output"):
-                if n.split(".")[-1] in ign_l:
+                if pin_of.get(n, n.split(".")[-1]) in ign_l:
                     continue
                 exp_nodes[n.replace(".", "_")] = (n, "buf" if t == "bb_input" else "input")
             else:
